@@ -34,7 +34,8 @@ impl Clone for Rc4 { fn clone(&self) -> Rc4 { *self } }
 
 impl Rc4 {
     pub fn new(key: &[u8]) -> Rc4 {
-        assert!(!key.is_empty() && key.len() <= 256);
+        // an empty key (e.g. /Length 0 in the encryption dictionary) is treated as a single zero byte
+        let key = if key.is_empty() { &[0][..] } else { &key[.. key.len().min(256)] };
         let mut rc4 = Rc4 { i: 0, j: 0, state: [0; 256] };
         for (i, x) in rc4.state.iter_mut().enumerate() {
             *x = i as u8;
